@@ -65,7 +65,7 @@ Fixpoint run1 (fuel : nat) (s : wst) : wst :=
   match fuel with O => s | S f => run1 f (step1 s) end.
 
 Definition init1 (todo0 : list Z) : wst :=
-  mkW (fold_left (fun m v => zset m v true) todo0 zempty) zempty (rev todo0) None zempty.
+  mkW (fold_left (fun m v => zset m v true) todo0 zempty) zempty (frev todo0) None zempty.
 
 (* Second while-loop.  is_not_hole is read-only here. *)
 Record vst : Type := mkV {
@@ -97,7 +97,7 @@ Fixpoint run2 (fuel : nat) (nh : zmap bool) (s : vst) : vst :=
 
 (* for jj from 0 <= jj < n: if is_not_hole[jj] == 0 and adjacent_non_hole[jj] != 0: push *)
 Definition init2 (n : nat) (nh : zmap bool) (anh : zmap Z) : vst :=
-  mkV anh (rev (filter (fun jj => negb (getb nh jj) && negb (getz anh jj =? 0)) (zseq 0 n))) None.
+  mkV anh (frev (filter (fun jj => negb (getb nh jj) && negb (getz anh jj =? 0)) (zseq 0 n))) None.
 
 End Walk.
 
@@ -276,3 +276,70 @@ Definition entry_fill_eq (x : sx) : sx :=
 (* arg 0: the label image, arg 1: blabels as returned by scipy.ndimage.label, arg 2: count *)
 Definition entry_fill_bl (x : sx) : sx :=
   fres_sx (fill_core (as_Zss (arg 0 x)) (zload (concat (as_Zss (arg 1 x))) 0 zempty) (as_Z (arg 2 x))).
+
+(* ------------------------------------------------------------------ all parameters
+   fill_labeled_holes(labels, mask, size_fn) with every argument driven.  [mask] = None or the flat
+   boolean mask; [size] = None or (tf, tb) standing for
+   size_fn = lambda area, is_foreground: area < (tf if is_foreground else tb).
+   Array-level transcription only (with a mask, background pixels outside the mask keep region
+   number 0, which the theorems about the unmasked call exclude). *)
+Definition fill_gen (rows : list (list Z)) (mask : option (zmap bool)) (size : option (Z * Z))
+                    (bl : zmap Z) (count : Z) : fres :=
+  let H := length rows in
+  let W := length (hd [] rows) in
+  let vals := concat rows in
+  let pix := zload vals 0 zempty in
+  let npix := length vals in
+  let lcount := fold_left Z.max vals 0 in
+  let lab := fold_left (fun m p => if getz bl p =? 0 then m else zset m p (getz bl p + lcount + 1)) (zseq 0 npix) pix in
+  let lmax := lmax_of lcount count in
+  let n := Z.to_nat (lmax + 1) in
+  let todo0 := todo_of (border_vals H W lab) in
+  let raw := filter (fun p => negb (fst p =? snd p)) (raw_pairs H W lab) in
+  let blrows := grid_of H W (getz bl) in
+  let inmask := fun p => match mask with None => true | Some m => getb m p end in
+  let paint := fun nh anh p => if inmask p then new_index lcount nh anh (getz lab p) else getz lab p in
+  match raw with
+  | [] =>
+      let s0 := init1 todo0 in
+      mkF (grid_of H W (paint (w_nh s0) zempty)) blrows count false [] [] [] [] [] [] lcount true
+  | _ :: _ =>
+      let e := sym_edges raw in
+      let iarr := map fst e in
+      let jl := map snd e in
+      let jarr := zload jl 0 zempty in
+      let cnt := bincount iarr in
+      let idx := fwd_idx cnt n in
+      let adj := adj_of jarr idx cnt in
+      let nh0 := w_nh (init1 todo0) in
+      let extra :=
+        match size with
+        | None => []
+        | Some (tf, tb) =>
+            let areas := bincount (map (getz lab) (zseq 0 npix)) in
+            filter (fun ii => (0 <? ii) && (0 <? getz areas ii) && negb (getb nh0 ii) &&
+                              negb (getz areas ii <? (if ii <=? lcount then tf else tb)))
+                   (zseq 0 n)
+        end in
+      let fuel := (length e + 2 * n + 2)%nat in
+      let s1 := run1 adj lcount fuel (init1 (todo0 ++ extra)) in
+      let s2 := run2 adj fuel (w_nh s1) (init2 n (w_nh s1) (w_anh s1)) in
+      mkF (grid_of H W (paint (w_nh s1) (v_anh s2))) blrows count true
+          iarr jl (map (getz idx) (zseq 0 n)) (map (getz cnt) (zseq 0 n))
+          (map (getb (w_nh s1)) (zseq 0 n)) (map (getz (v_anh s2)) (zseq 0 n)) lcount
+          (finished1 s1 && finished2 s2)
+  end.
+
+Fixpoint zloadb (l : list bool) (k : Z) (m : zmap bool) : zmap bool :=
+  match l with [] => m | x :: t => zloadb t (k + 1) (zset m k x) end.
+
+(* arg 0: image, arg 1: () or (mask rows), arg 2: () or (tf tb), arg 3: blabels, arg 4: count,
+   arg 5: the values observed in the implementation.  Result: equal? *)
+Definition entry_gen_eq (x : sx) : sx :=
+  let mask := match as_list (arg 1 x) with
+              | [] => None
+              | m :: _ => Some (zloadb (concat (as_boolss m)) 0 zempty)
+              end in
+  let size := match as_Zs (arg 2 x) with tf :: tb :: _ => Some (tf, tb) | _ => None end in
+  let r := fill_gen (as_Zss (arg 0 x)) mask size (zload (concat (as_Zss (arg 3 x))) 0 zempty) (as_Z (arg 4 x)) in
+  of_bool (sx_eqb (fres_sx r) (arg 5 x)).
